@@ -13,6 +13,7 @@ RULE = ('for every order N in {1,3,...,21} (and 23 for the H^1/4 rule, requested
         'zero on constants, |lambda f|^2 = lambda^2 |f|^2, translation of function and interval together, curve-aware variant on a '
         'rigidly placed straight segment == flat variant, two straight pieces meeting in a corner (seminorm_h_1_2_pw) against a graded '
         'reference of the double integral with Euclidean distances. distinct = distinct (routine, order, interval, polynomial / relation)')
+RULE += ' ' + 'Every second interval uses an object built with two different orders, Slobodeckij(22-N, N): seminorm_h_1_4 must be exact to (22-N-1)/2, seminorm_h_1_2 to (N-1)/2.'
 ASSUMPTIONS = [
     'the routines difference point values, so any implementation loses digits proportional to kappa = sup|p| / osc p; polynomials are '
     'drawn with O(1) coefficients in the interval\'s own coordinate and the tolerance is 1e-12*(1+kappa)',
@@ -22,7 +23,7 @@ ASSUMPTIONS = [
     'exact references in Fraction arithmetic (stbemv/oracles/slobo.py), validated against the two closed values the repository quotes',
 ]
 REQUIRED = {t: ['routine:h_1_4', 'routine:h_1_2', 'routine:h_1_2-curve', 'routine:h_1_2_pw', 'order:1', 'order:21', 'order:23(h_1_4)',
-                'rel:nonnegative', 'rel:constant', 'rel:scaling', 'rel:translation', 'interval:small', 'interval:large', 'degree:max', 'corner:repo-line-pieces', 'corner:same-intervals-sequence']
+                'rel:nonnegative', 'rel:constant', 'rel:scaling', 'rel:translation', 'interval:small', 'interval:large', 'degree:max', 'corner:repo-line-pieces', 'corner:same-intervals-sequence', 'ctor:two-different-orders']
             for t in ('quick', 'thorough')}
 TIMEOUT = {'quick': 600, 'thorough': 3600}
 ORDERS = list(range(1, 22, 2))
@@ -109,9 +110,26 @@ def run_shard(spec, acc):
         return
     routines = [('h_1_4', N)] + ([('h_1_2', N)] if N <= 21 else [])
     acc.seen('order:%d' % N if N <= 21 else 'order:23(h_1_4)')
-    for _ in range(spec['n_int']):
+    # the two orders are separate constructor arguments: a second object with a different H^{1/4} order (higher for small N, lower for
+    # large N) must be exact up to (N14-1)/2 in seminorm_h_1_4 and up to (N-1)/2 in seminorm_h_1_2
+    S_same, routines_same, S_mixed = S, routines, None
+    if N <= 21:
+        N14 = 22 - N if 22 - N != N else 3
+        try:
+            S_mixed = Slobodeckij(N14, N)
+        except Exception as ex:
+            fr = repo_frame(ex)
+            if fr is None:
+                raise
+            acc.violation('slobodeckij-ctor-raised:%s' % type(ex).__name__, 'Slobodeckij(%d, %d) raised %s at %s:%d' % (N14, N, type(ex).__name__, fr[1], fr[2]), wit0)
+    for i_int in range(spec['n_int']):
         a, b = rand_interval(rng)
         h = b - a
+        if S_mixed is not None and i_int % 2 == 1:
+            S, routines = S_mixed, [('h_1_4', N14), ('h_1_2', N)]
+            acc.seen('ctor:two-different-orders')
+        else:
+            S, routines = S_same, routines_same
         acc.seen('interval:small' if h < 0.01 else ('interval:large' if h > 100 else 'interval:medium'))
         for routine, order in routines:
             dmax = (order - 1) // 2
@@ -137,7 +155,7 @@ def run_shard(spec, acc):
                     acc.seen('degree:max')
                 acc.seen('rel:nonnegative')
                 if not (got >= 0) or not np.isfinite(got):
-                    acc.violation('seminorm-negative:' + routine, '%s order %d on [%r,%r]: %r' % (routine, N, a, b, got), w)
+                    acc.violation('seminorm-negative:' + routine, '%s order %d on [%r,%r]: %r' % (routine, order, a, b, got), w)
                     continue
                 if deg == 0:
                     acc.seen('rel:constant')
@@ -153,7 +171,7 @@ def run_shard(spec, acc):
                 if not (err <= tol):
                     acc.violation('seminorm-inexact:%s' % routine,
                                   '%s order %d, degree %d on [%r,%r]: %.17g, closed form %.17g (rel %.2e, kappa %.1f)' %
-                                  (routine, N, deg, a, b, got, exact, err, kap), dict(w, computed=got, exact=exact))
+                                  (routine, order, deg, a, b, got, exact, err, kap), dict(w, computed=got, exact=exact))
                     continue
                 # scaling
                 lam = rng.choice([2.0, -3.0, 0.5, 1e3, -1e-3, 7.25])
